@@ -28,7 +28,8 @@ META = {
             "the lz4 *frame* format on both sides; (4) the Python store writes an operator file only by saving the operator "
             "under the name chosen from `error is not None` - no rename or move of operator files - so a file named npz.lz4 "
             "always holds an npz with both members; overwriting never leaves or misnames a second file (C37's invariant, "
-            "re-used); (5) the reader's documented scale tolerance constants exist (rtol 1e-5, atol 1e-3).",
+            "re-used); (5) the reader's documented scale tolerance constants exist (rtol 1e-5, atol 1e-3)."
+            " A point handed back by EKO.approx (NumPy scalar semantics switched on in the evaluator) and used as a key again still gives a header with a built-in integer nf.",
     "note": "Level 'other': necessary agreement conditions; the libraries' byte-level behaviour is outside static reach.",
     "technique": "cross-language writer/reader tables: reader side extracted from the Rust sources (lexical front-end), writer side read off the files the Python writer produces under partial evaluation on a model file system; who-may-write rule on operator files",
     "engine": "sa",
